@@ -512,6 +512,15 @@ main(void)
 #endif
 #if MODE == 15
     VASSERT(storage_set(dev, &p) == Device_Ok, "set failed");
+#if defined(DIRTY_START) && DEV == 1
+    /* restart step: the device object is as SOME earlier acquisition left it (arbitrary write cursor,
+     * arbitrary link position, arbitrary frame count, arbitrary string-section offset); the file
+     * written by the acquisition that starts now must not depend on any of it */
+    the_tiff.last_offset = ND(uint64_t);
+    the_tiff.last_ifd_next_offset = ND(uint64_t);
+    the_tiff.frame_count = ND(size_t);
+    the_tiff.ss_offset = ND(int64_t);
+#endif
     VASSERT(storage_start(dev) == Device_Ok, "start failed");
 #ifdef FRAME_STEP
     /* per-frame induction step: the file already holds an ARBITRARY amount of data (any 64-bit end
